@@ -14,7 +14,7 @@ package syncer
 //@ ghost func AsLeaf(p *node.Pointer) *node.LeafNode { return p.Node.(*node.LeafNode) }
 
 //@ func verifyResult.addLeafToWriteLog
-//@   trusted
+//@   props C04
 //@   modifies vr.writeLog
 
 //@ func ProofVerifier.verifyProof
